@@ -66,6 +66,32 @@ fn site_expr(k: i64, f: &str, arg: X) -> X {
     X::call("r", X::Vec(vec![X::int(k), X::call(f, t)]))
 }
 
+fn anonymise(x: &X) -> X {
+    if let X::Call(rn, inner) = x {
+        if rn == "r" {
+            if let X::Vec(items) = &**inner {
+                if let [X::Val(XV::I(k)), X::Call(f, targ)] = &items[..] {
+                    if let X::Call(tn, tinner) = &**targ {
+                        if tn == "t" {
+                            if let X::Vec(titems) = &**tinner {
+                                if let [X::Val(XV::I(_)), arg] = &titems[..] {
+                                    let u = X::call("u", anonymise(arg));
+                                    return X::call("r", X::Vec(vec![X::int(*k), X::call(f, u)]));
+                                }
+                            }
+                        }
+                    }
+                }
+            }
+        }
+    }
+    let mut n = x.clone();
+    for c in n.children_mut() {
+        *c = anonymise(c);
+    }
+    n
+}
+
 pub fn generate(seed: u64, thorough: bool) -> Scenario {
     let mut rng = Rng::new(seed);
     let mut scn = Scenario::new("C11");
@@ -211,6 +237,18 @@ pub fn generate(seed: u64, thorough: bool) -> Scenario {
         crate::c05::random_priorities(&mut rng, ntasks, &mut scn.exec);
     }
     scn.exec.fresh_waker = rng.chance(1, 5);
+    if !big && Rng::new(seed ^ 0xA707_A707).chance(1, 4) {
+        // anonymous argument tracer: sites become r([k, F(u(ARG))]) — the call expression F(u(ARG)) no longer
+        // carries the site number, so equal calls at different sites are textually identical
+        for r in scn.rules.iter_mut() {
+            r.expr = anonymise(&r.expr);
+        }
+        for f in scn.functions.iter_mut() {
+            if f.name == "t" {
+                *f = FnSpec::new("u", false, ScriptOut::Echo);
+            }
+        }
+    }
     scn.exec.max_steps = if big { 20_000 + 40 * mine.len() as u32 * 4 } else { 1500 };
     if big {
         // keep the big evaluations cheap: few suspensions
@@ -237,6 +275,13 @@ fn sites_of(scn: &Scenario) -> Result<(BTreeMap<i64, SiteInfo>, Vec<Vec<i64>>), 
                 if let X::Vec(items) = &**inner {
                     if let [X::Val(XV::I(k)), X::Call(f, targ)] = &items[..] {
                         if let X::Call(tn, tinner) = &**targ {
+                            if tn == "u" {
+                                walk_arg(tinner, rule, out)?;
+                                if out.insert(*k, SiteInfo { f: f.clone(), rule, top_pos: top }).is_some() {
+                                    return Err(format!("site {k} appears twice"));
+                                }
+                                return Ok(Some(*k));
+                            }
                             if tn == "t" {
                                 if let X::Vec(titems) = &**tinner {
                                     if let [X::Val(XV::I(k2)), arg] = &titems[..] {
@@ -317,6 +362,9 @@ pub fn check(scn: &Scenario, c: &mut Counters) -> Verdict {
         // liveness under schedules is C12's business
         c.bump("skipped.liveness");
         return Verdict::skip("evaluation did not finish under this schedule (C12)".into());
+    }
+    if scn.functions.iter().any(|f| f.name == "u") {
+        return check_anon(scn, &out, &sites, &tops, c);
     }
     let cacheable: HashMap<&str, bool> = scn.functions.iter().map(|f| (f.name.as_str(), f.cacheable)).collect();
     let dynamic: HashMap<&str, u32> = scn.functions.iter().filter_map(|f| f.cacheable_first.map(|n| (f.name.as_str(), n))).collect();
@@ -609,3 +657,246 @@ pub fn check(scn: &Scenario, c: &mut Counters) -> Verdict {
     Verdict::pass(if nontrivial { Some(sig) } else { None })
 }
 
+
+// ------------------------------------------------ the anonymous-tracer form
+//
+// Sites of the form r([k, F(u(ARG))]): `u` (non-cacheable, returns its argument) logs the actual
+// argument but not the site, so the site — and with it the function a cache hit belongs to — is
+// only known when `r` reports. A separate, simpler state machine; everything else as above.
+
+#[derive(Debug)]
+enum AnonSt {
+    Idle,
+    InU { a: String, inv: u64 },
+    AfterU { a: String },
+    InF { f: String, a: String, inv: u64, cacheable: bool },
+    NeedR { f: String, v: String },
+    InR { inv: u64 },
+}
+
+fn check_anon(
+    scn: &Scenario,
+    out: &crate::exec::RunOut,
+    sites: &BTreeMap<i64, SiteInfo>,
+    tops: &[Vec<i64>],
+    c: &mut Counters,
+) -> Verdict {
+    c.bump("runs.anonymous_tracer_form");
+    let cacheable: HashMap<&str, bool> = scn.functions.iter().map(|f| (f.name.as_str(), f.cacheable)).collect();
+    let dynamic: HashMap<&str, u32> = scn.functions.iter().filter_map(|f| f.cacheable_first.map(|n| (f.name.as_str(), n))).collect();
+    let mut sig = 0u64;
+    let mut nontrivial = false;
+    for task in 0..scn.tasks.len() {
+        let mut cache: HashMap<(String, String), String> = HashMap::new();
+        let mut invoked: HashMap<String, u32> = HashMap::new();
+        let mut observed_r: HashMap<i64, String> = HashMap::new();
+        let mut failures: Vec<(String, String)> = vec![];
+        let mut hist = String::new();
+        let mut st = AnonSt::Idle;
+        let abandoned = !matches!(out.ends[task], TaskEnd::Finished(_));
+        let declared = |f: &str, invoked: &HashMap<String, u32>| -> bool {
+            match dynamic.get(f) {
+                Some(n) => invoked.get(f).copied().unwrap_or(0) < *n,
+                None => *cacheable.get(f).unwrap_or(&false),
+            }
+        };
+        for ev in out.log.iter() {
+            let etask = match ev {
+                Ev::Invoke { task, .. } | Ev::Return { task, .. } | Ev::Cancel { task, .. } | Ev::Panic { task, .. } => *task,
+                _ => continue,
+            };
+            if etask != task {
+                continue;
+            }
+            if let Ev::Cancel { .. } | Ev::Panic { .. } = ev {
+                if !abandoned {
+                    return Verdict::violation("call-dropped", format!("evaluation {task} finished but one of its calls was dropped midway"));
+                }
+                st = AnonSt::Idle;
+                continue;
+            }
+            st = match (st, ev) {
+                (AnonSt::Idle, Ev::Invoke { f, arg, inv, .. }) if f == "u" => AnonSt::InU { a: arg.clone(), inv: *inv },
+                (AnonSt::Idle, Ev::Invoke { f, arg, .. }) if f == "r" => {
+                    let k = split_tracer_arg(arg).map(|x| x.0);
+                    return Verdict::violation(
+                        "argument-not-evaluated",
+                        format!("site {k:?} in evaluation {task} | its result {arg} was observed although the call's argument expression was not evaluated (the whole call expression was skipped)"),
+                    );
+                }
+                (AnonSt::Idle, Ev::Invoke { f, arg, .. }) => {
+                    return Verdict::violation("untraced-invocation", format!("{f}({arg}) invoked outside any traced site"));
+                }
+                (AnonSt::InU { a, inv }, Ev::Return { inv: i2, ok: true, .. }) if inv == *i2 => AnonSt::AfterU { a },
+                (AnonSt::AfterU { a }, Ev::Invoke { f, arg, inv, .. }) if f == "r" => {
+                    // no invocation: only legal as a hit in this evaluation's cache, for the site's function
+                    let Some((k, v)) = split_tracer_arg(arg) else { return Verdict::harness(format!("tracer argument {arg}")) };
+                    let Some(site) = sites.get(&k) else { return Verdict::harness(format!("unknown site {k}")) };
+                    let is_c = declared(&site.f, &invoked);
+                    match if is_c { cache.get(&(site.f.clone(), a.clone())) } else { None } {
+                        Some(v0) if v == v0 => {
+                            hist.push('h');
+                            c.bump("hit.cache_hit");
+                            c.bump("hit.cache_hit_on_a_textually_identical_call");
+                            nontrivial = true;
+                            observed_r.insert(k, v.to_string());
+                            AnonSt::InR { inv: *inv }
+                        }
+                        Some(v0) => {
+                            return Verdict::violation(
+                                "cache-hit-wrong-value",
+                                format!("site {k}: {}({a}) | observed {v} but the remembered result of that call is {v0}", site.f),
+                            )
+                        }
+                        None => {
+                            let why = if is_c { "no successful call of that (function, argument) earlier in this evaluation" } else { "the function does not declare itself cacheable" };
+                            return Verdict::violation(
+                                "result-without-invocation",
+                                format!("site {k}: {}({a}) in evaluation {task} | observed {v} without the function being invoked; {why}", site.f),
+                            );
+                        }
+                    }
+                }
+                (AnonSt::AfterU { a }, Ev::Invoke { f, arg, .. }) if f == "u" => {
+                    return Verdict::violation(
+                        "call-skipped",
+                        format!("a call with argument {a} in evaluation {task} | neither invoked nor served from this evaluation's cache; the next site (argument {arg}) started instead"),
+                    );
+                }
+                (AnonSt::AfterU { a }, Ev::Invoke { f, arg, inv, .. }) => {
+                    let is_c = declared(f, &invoked);
+                    if is_c {
+                        if let Some(v0) = cache.get(&(f.clone(), a.clone())) {
+                            return Verdict::violation(
+                                "invoked-again-despite-cache",
+                                format!("cacheable {f}({a}) | invoked again although this evaluation already holds {v0}"),
+                            );
+                        }
+                    }
+                    if *arg != a {
+                        return Verdict::violation("invoked-with-other-argument", format!("{f} | invoked with {arg}, the call's argument is {a}"));
+                    }
+                    *invoked.entry(f.clone()).or_insert(0) += 1;
+                    AnonSt::InF { f: f.clone(), a, inv: *inv, cacheable: is_c }
+                }
+                (AnonSt::InF { f, a, inv, cacheable: is_c }, Ev::Return { inv: i2, ok, val, .. }) if inv == *i2 => {
+                    if *ok {
+                        hist.push(if is_c { 'm' } else { 'u' });
+                        if is_c {
+                            cache.insert((f.clone(), a), val.clone());
+                        }
+                        AnonSt::NeedR { f, v: val.clone() }
+                    } else {
+                        hist.push('f');
+                        failures.push((f, val.clone()));
+                        AnonSt::Idle
+                    }
+                }
+                (AnonSt::NeedR { f, v }, Ev::Invoke { f: rf, arg, inv, .. }) => {
+                    let Some((k, v2)) = split_tracer_arg(arg) else { return Verdict::harness(format!("tracer argument {arg}")) };
+                    let Some(site) = sites.get(&k) else { return Verdict::harness(format!("unknown site {k}")) };
+                    if rf != "r" {
+                        return Verdict::violation("site-result-not-observed", format!("{f} returned {v} | expected its result to be consumed, saw {rf}({arg})"));
+                    }
+                    if site.f != f {
+                        return Verdict::violation("wrong-function-invoked", format!("site {k} calls {} | {f} was invoked instead", site.f));
+                    }
+                    if v2 != v {
+                        return Verdict::violation("call-result-altered", format!("site {k}: {f} | the function returned {v} but the expression observed {v2}"));
+                    }
+                    observed_r.insert(k, v);
+                    AnonSt::InR { inv: *inv }
+                }
+                (AnonSt::InR { inv }, Ev::Return { inv: i2, ok: true, .. }) if inv == *i2 => AnonSt::Idle,
+                (AnonSt::InU { .. }, Ev::Invoke { .. }) | (AnonSt::InF { .. }, Ev::Invoke { .. }) | (AnonSt::InR { .. }, Ev::Invoke { .. }) => {
+                    c.bump("skipped.overlapping_calls");
+                    return Verdict::skip("calls of one evaluation overlap (C05)".into());
+                }
+                (AnonSt::AfterU { a }, e) => {
+                    return Verdict::violation("call-skipped", format!("a call with argument {a} in evaluation {task} | neither invoked nor served from the cache; next event {e:?}"));
+                }
+                (s, e) => return Verdict::harness(format!("anonymous-form checker lost: state {s:?} event {e:?}")),
+            };
+        }
+        if !abandoned {
+            match &st {
+                AnonSt::Idle => {}
+                AnonSt::AfterU { a } => {
+                    return Verdict::violation("call-skipped", format!("a call with argument {a} in evaluation {task} | neither invoked nor served from the cache (evaluation ended)"));
+                }
+                other => return Verdict::violation("site-left-open", format!("evaluation {task} finished in checker state {other:?}")),
+            }
+        }
+        let outcomes = match &out.ends[task] {
+            TaskEnd::Finished(TaskResult::Outcomes(o)) => o,
+            TaskEnd::Finished(other) => {
+                c.bump("skipped.call_failed");
+                return Verdict::skip(format!("evaluate_value returned {other:?} (C09)"));
+            }
+            TaskEnd::ForeignPanic(m) => return Verdict::skip(format!("panic during evaluation: {m}")),
+            _ => {
+                hist.push('x');
+                sig = combine(sig, hash_str(&hist));
+                continue;
+            }
+        };
+        if outcomes.len() != scn.rules.len() || outcomes.iter().zip(scn.rules.iter()).any(|(o, r)| o.rule_name != r.name) {
+            c.bump("skipped.outcome_shape");
+            return Verdict::skip("outcomes do not line up with the rules (C09)".into());
+        }
+        for (ri, o) in outcomes.iter().enumerate() {
+            match &o.value {
+                Res::Ok(v) => {
+                    let mut want = String::from("[");
+                    for (i, k) in tops[ri].iter().enumerate() {
+                        let Some(vk) = observed_r.get(k) else {
+                            return Verdict::violation(
+                                "outcome-not-justified",
+                                format!("rule {ri} of evaluation {task} succeeded with {v} | site {k} observed no result in this evaluation"),
+                            );
+                        };
+                        if i > 0 {
+                            want.push(',');
+                        }
+                        want.push_str(vk);
+                    }
+                    want.push(']');
+                    if *v != want {
+                        return Verdict::violation(
+                            "outcome-not-justified",
+                            format!("rule {ri} of evaluation {task} | outcome {v}, the results its sites observed in this evaluation are {want}"),
+                        );
+                    }
+                }
+                Res::Err(e) => {
+                    if failures.is_empty() {
+                        if e.class != "UserFunctionError" {
+                            c.bump("skipped.rule_failed_for_other_reason");
+                            return Verdict::skip(format!("rule {ri} failed with {e:?} without any call failing"));
+                        }
+                        return Verdict::violation(
+                            "error-without-failed-call",
+                            format!("rule {ri} of evaluation {task} | failed with {e:?} although no call failed in this evaluation"),
+                        );
+                    }
+                    c.bump("hit.user_function_error_outcome");
+                    let (f, msg) = &failures[0];
+                    if e.class != "UserFunctionError" {
+                        return Verdict::violation("failure-not-user-function-error", format!("{f} failed with {msg:?} | the rule's outcome is {e:?}"));
+                    }
+                    if !failures.iter().any(|(f, _)| e.payload.first() == Some(f)) {
+                        return Verdict::violation("failure-names-wrong-function", format!("{f} failed | the error outcome names {:?}", e.payload.first()));
+                    }
+                    if e.payload.get(1).map(|s| s.as_str()) == Some("<original error lost>") {
+                        return Verdict::violation("original-error-lost", format!("{f} failed with {msg:?} | the typed error is neither the outcome's source nor in its chain"));
+                    }
+                    if !failures.iter().any(|(f, msg)| e.payload.first() == Some(f) && e.payload.get(1) == Some(f) && e.payload.get(2) == Some(msg)) {
+                        return Verdict::violation("failure-carries-other-error", format!("{f} failed with {msg:?} | the outcome carries {:?}", &e.payload[1..]));
+                    }
+                }
+            }
+        }
+        sig = combine(sig, hash_str(&hist));
+    }
+    Verdict::pass(if nontrivial { Some(combine(sig, 0xA707)) } else { None })
+}
